@@ -202,4 +202,19 @@ example : aEx.px < qEx.pl ∧ qEx.pr < aEx.px ∧ Crossing aEx ∧ qEx.Distinct 
   refine ⟨by norm_num [qEx, aEx], by norm_num [qEx, aEx], rfl, ?_⟩
   unfold Prob.Distinct qEx; norm_num
 
+/-- the wave speeds of the example: fan from −1 to 0, contact at 1/2, shock at 13/12 -/
+theorem ex_sound1 : RiemannGen.soundSpeed eosIG (1 : ℝ) 3 3 = 1 := by
+  rw [show eosIG = ⟨false, eosIG.c⟩ from rfl, sound_ig, sound_eq]
+  norm_num
+theorem ex_sound2 : RiemannGen.soundSpeed eosIG (1 / 8 : ℝ) (3 / 2) 3 = 1 / 2 := by
+  rw [show eosIG = ⟨false, eosIG.c⟩ from rfl, sound_ig, sound_eq,
+    show (3 : ℝ) * (1 / 8) / (3 / 2) = (1 / 2) ^ 2 by norm_num, Real.sqrt_sq (by norm_num)]
+theorem ex_vHeadL : RiemannGen.vHeadL eosIG (toData qEx) = -1 := by
+  simp only [RiemannGen.vHeadL, toData, qEx, ex_sound1]; norm_num
+theorem ex_vTailL : RiemannGen.vTailL eosIG (toData qEx) aEx = 0 := by
+  simp only [RiemannGen.vTailL, toData, qEx, aEx, ex_sound2]; norm_num
+theorem ex_vShockR : RiemannGen.vShockR (toData qEx) aEx = 13 / 12 := by
+  rw [(gen_shock_orientation qEx (by unfold Prob.Distinct qEx; norm_num) aEx).2]
+  simp only [qEx, aEx, ex_sqrt1]; norm_num
+
 end EPV.C02.RiemannGen
